@@ -15,9 +15,10 @@ def main():
     ids = [json.loads(l)["id"] for l in open(os.path.join(VERIF, "properties.jsonl"))]
     checks = []
     na = []
+    ready = set(open(os.path.join(HERE, "READY")).read().split())
     for pid in ids:
         path = os.path.join(HERE, "props", pid.lower() + ".py")
-        if not os.path.exists(path):
+        if not os.path.exists(path) or pid not in ready:
             na.append({"property_id": pid, "reason": NOT_APPLICABLE.get(pid, "check not built yet (work in progress; the design in DESIGN.md section 6 applies)")})
             continue
         src = open(path).read()
